@@ -6,7 +6,6 @@ import (
 	"fmt"
 	"io"
 	"math"
-	"strconv"
 	"strings"
 	"sync"
 	"sync/atomic"
@@ -249,34 +248,51 @@ func (s *tunnelServer) createStream(ctx context.Context, streamID int64, frame *
 
 func timeoutFromHeaders(headers metadata.MD) (time.Duration, bool) {
 	vals := headers.Get("grpc-timeout")
-	if len(vals) == 0 {
+	// use the last value that is well-formed; a malformed one never
+	// results in a deadline
+	for i := len(vals) - 1; i >= 0; i-- {
+		if timeout, ok := parseTimeout(vals[i]); ok {
+			return timeout, true
+		}
+	}
+	return 0, false
+}
+
+// parseTimeout decodes a grpc-timeout header value per the gRPC wire
+// specification: one to eight ASCII digits followed by a unit. Values
+// that exceed the range of time.Duration saturate instead of wrapping.
+func parseTimeout(timeoutStr string) (time.Duration, bool) {
+	if len(timeoutStr) < 2 || len(timeoutStr) > 9 {
 		return 0, false
 	}
-	timeoutStr := vals[len(vals)-1]
-	if len(timeoutStr) < 2 {
-		return 0, false
-	}
-	timeout, err := strconv.Atoi(timeoutStr[:len(timeoutStr)-1])
-	if err != nil {
-		return 0, false
-	}
-	duration := time.Duration(timeout)
+	var unit time.Duration
 	switch timeoutStr[len(timeoutStr)-1] {
 	case 'H':
-		return duration * time.Hour, true
+		unit = time.Hour
 	case 'M':
-		return duration * time.Minute, true
+		unit = time.Minute
 	case 'S':
-		return duration * time.Second, true
+		unit = time.Second
 	case 'm':
-		return duration * time.Millisecond, true
+		unit = time.Millisecond
 	case 'u':
-		return duration * time.Microsecond, true
+		unit = time.Microsecond
 	case 'n':
-		return duration * time.Nanosecond, true
+		unit = time.Nanosecond
 	default:
 		return 0, false
 	}
+	var timeout int64
+	for _, ch := range timeoutStr[:len(timeoutStr)-1] {
+		if ch < '0' || ch > '9' {
+			return 0, false
+		}
+		timeout = timeout*10 + int64(ch-'0')
+	}
+	if timeout > math.MaxInt64/int64(unit) {
+		return math.MaxInt64, true
+	}
+	return time.Duration(timeout) * unit, true
 }
 
 func (s *tunnelServer) getStream(streamID int64) (*tunnelServerStream, error) {
